@@ -272,16 +272,19 @@ unsafe fn child_body(wire: &WireReq, cfg: &Cfg, prov: &ProvSpec, start: unsafe f
         let mut parked = Box::pin(scratchstack_aws_signature::sigv4_validate_request(parked_req, &cfg.region, &cfg.service, &mut parked_provider, now, &reqs, cfg.options()));
         let w = crate::env::noop_waker();
         let mut cx = std::task::Context::from_waker(&w);
+        // (should the copy complete without waiting for its provider, there is nothing to park: the refusal is
+        // traced all the same)
+        let mut finished = false;
         for _ in 0..3 {
-            if parked.as_mut().poll(&mut cx).is_ready() {
-                return 8;
+            if !finished && parked.as_mut().poll(&mut cx).is_ready() {
+                finished = true;
             }
         }
         start();
         let r = sut::validate_http(req, cfg, &mut provider, 16);
         stop();
         // still suspended afterwards, then abandoned
-        if parked.as_mut().poll(&mut cx).is_ready() {
+        if !finished && parked.as_mut().poll(&mut cx).is_ready() {
             return 8;
         }
         drop(parked);
